@@ -261,7 +261,99 @@ fn random_text(rng: &mut Rng) -> Vec<u8> {
 	(0..n).map(|_| if rng.chance(1, 30) { rng.range(0x20, 0x7e) as u8 } else { *rng.pick(alphabet) }).collect()
 }
 
+/// F40 shapes: braces that are not balanced inside an alternative (parse errors on both sides since the repair), and the two
+/// neighbouring shapes the parser still accepts (a '}' closing a brace opened before the group with a '{' reopening it; a '{'
+/// right behind a ')').  Flat items are printed from the grammar so that the error position varies.
+fn unbalanced_text(rng: &mut Rng) -> String {
+	let mut part = |rng: &mut Rng| -> String { let n = rng.below(3) as usize; let mut t = String::new(); show(&gen_flat(rng, n, true), &mut t, rng); t };
+	let j = *rng.pick(&["%", "$", "*"]);
+	let (a, b, c, pre, post) = (part(rng), part(rng), part(rng), part(rng), part(rng));
+	match rng.below(9) {
+		0 => format!("{} ( {} {}{{ {} | {} ) {} 01", pre, a, j, b, c, post),            // open at '|'
+		1 => format!("{} ( {} | {} {}{{ {} ) {} 01", pre, a, b, j, c, post),            // open at ')'
+		2 => format!("{} {}{{ ( {} }} | {} ) }} {}", pre, j, a, b, post),               // one too many closed at '|'
+		3 => format!("{} ( {} {}{{ {} | {} }} ) {}", pre, a, j, b, c, post),            // opened in one alternative, closed in the next
+		4 => format!("{} {}{{ ( {} | {} }} ) {}", pre, j, a, b, post),                  // one too many closed at ')'
+		5 => format!("{} ( {} ( {} {}{{ | {} ) }} | {} ) {}", pre, a, b, j, c, b, post), // inner group unbalanced, outer balanced
+		6 => format!("{} {}{{ ( {} }} {}{{ | {} ) }} {} 03", pre, j, a, j, b, post),    // accepted: depth is back at '|'
+		7 => format!("{} ( {} | {} {} ) {{ {} }} {} 03", pre, a, b, j, c, post),        // accepted: '{' behind ')'
+		_ => format!("{}01", "(%{|?)".repeat(rng.range(1, 40) as usize)),                 // the exponential family itself
+	}
+}
+
+/// raw atom lists over ALL atom kinds (the parser never emits Back, Pir, VTypeName, Check, Fuzzy, Skip(0)/Back(0)/Push(0)
+/// other than after '*', Many(0), Rangext before Push/Back): small operands plus boundary operands; byte operands follow
+/// the buffer most of the time so that execution gets past the first atoms
+fn gen_raw(rng: &mut Rng) -> String {
+	let pe64 = rng.chance(1, 2);
+	let file = rng.chance(1, 2);
+	let image_base: u64 = if pe64 { 0x1_4000_0000 } else { 0x40_0000 };
+	let va_bytes = if pe64 { 8usize } else { 4 };
+	let sec_va = 0x1000u32; let sec_prd = if file { 0x400u32 } else { 0x1000 };
+	let sec_size = 0x300usize;
+	// buffer: zeros, small values (jump operands that stay close), random bytes; valid pointers / small rel32 at some aligned places
+	let mut buf: Vec<u8> = (0..sec_size).map(|_| match rng.below(4) { 0 | 1 => 0, 2 => rng.range(1, 8) as u8, _ => rng.byte() }).collect();
+	let mut k = 0usize;
+	while k + 8 <= sec_size {
+		match rng.below(6) {
+			0 => { let t = image_base + sec_va as u64 + rng.below(sec_size as u64); buf[k..k + va_bytes].copy_from_slice(&t.to_le_bytes()[..va_bytes]); },
+			1 => { let r = (rng.below(64) as i32 - 16).to_le_bytes(); buf[k..k + 4].copy_from_slice(&r); },
+			_ => {},
+		}
+		k += 8;
+	}
+	let lay_off = 0x40 + rng.below(0x40) as usize;
+	let slots = rng.below(7) as usize;
+	let slot = |rng: &mut Rng| -> u8 { match rng.below(10) { 0 => 255, 1 => slots as u8, _ => rng.below(7) as u8 } };
+	let small = |rng: &mut Rng| -> u8 { *rng.pick(&[0u8, 0, 1, 1, 2, 3, 4, 8, 16, 255]) };
+	let n = rng.range(1, 14) as usize;
+	let mut at = lay_off as i64;   // approximate cursor (offset into the section) if everything so far matched
+	let mut atoms: Vec<Atom> = Vec::new();
+	if rng.chance(2, 3) { atoms.push(Atom::Save(0)); }
+	for _ in 0..n {
+		let cur = |at: i64| -> u8 { if at >= 0 && (at as usize) < sec_size { buf[at as usize] } else { 0 } };
+		let a = match rng.below(30) {
+			0 | 1 | 2 | 3 | 4 => { let b = if rng.chance(4, 5) { cur(at) } else { rng.byte() }; at += 1; Atom::Byte(b) },
+			5 => Atom::Save(slot(rng)),
+			6 => Atom::Push(small(rng)),
+			7 => Atom::Pop,
+			8 => Atom::Fuzzy(*rng.pick(&[0xffu8, 0xf0, 0x0f, 0x00, 0x80, 0x7f, 0x55])),
+			9 => { let k = small(rng); at += if k == 0 { va_bytes as i64 } else { k as i64 }; Atom::Skip(k) },
+			10 | 11 => { let k = small(rng); at -= if k == 0 { va_bytes as i64 } else { k as i64 }; Atom::Back(k) },
+			12 => Atom::Rangext(*rng.pick(&[0u8, 1, 1, 2, 255])),
+			13 => Atom::Many(*rng.pick(&[0u8, 1, 2, 5, 40, 255])),
+			14 => { let d = cur(at) as i8 as i64; at += d + 1; Atom::Jump1 },
+			15 => { at = (at & !7) + 8; Atom::Jump4 },
+			16 => { at = rng.below(sec_size as u64) as i64; Atom::Ptr },
+			17 | 18 => Atom::Pir(slot(rng)),
+			19 => Atom::VTypeName,
+			20 | 21 => Atom::Check(slot(rng)),
+			22 => Atom::Aligned(*rng.pick(&[0u8, 0, 1, 2, 3, 4, 31, 32, 255])),
+			23 => { let s = slot(rng); match rng.below(6) { 0 => { at += 1; Atom::ReadI8(s) }, 1 => { at += 1; Atom::ReadU8(s) }, 2 => { at += 2; Atom::ReadI16(s) }, 3 => { at += 2; Atom::ReadU16(s) }, 4 => { at += 4; Atom::ReadI32(s) }, _ => { at += 4; Atom::ReadU32(s) } } },
+			24 => Atom::Zero(slot(rng)),
+			25 | 26 => Atom::Case(rng.below(5) as u8),
+			27 => Atom::Break(rng.below(5) as u8),
+			28 => Atom::Nop,
+			_ => { let b = cur(at); at += 1; Atom::Byte(b ^ (1 << rng.below(8))) },
+		};
+		// a masked byte: Fuzzy directly before a byte that differs in the masked bits only
+		if let Atom::Byte(b) = a { if rng.chance(1, 6) { atoms.push(Atom::Fuzzy(0xf0)); atoms.push(Atom::Byte(b ^ (rng.below(16) as u8))); continue; } }
+		atoms.push(a);
+	}
+	let mut spec = ImgSpec { pe64, e_lfanew: 0x80, soh: 0x200, soi: 0x1000 + sec_size as u32 + 0x1000, image_base, nrva: 16, dirs: vec![(0, 0); 16], opt_size: 0, nsec_field: 1,
+		secs: vec![Sec { name: *b".text\0\0\0", va: sec_va, vs: sec_size as u32, prd: sec_prd, srd: sec_size as u32, chars: 0x6000_0020 }], checksum: 0, magic: if pe64 { 0x20b } else { 0x10b } };
+	spec.opt_size = spec.std_opt_size();
+	let len = sec_prd as usize + sec_size;
+	let img = Image { len, fill: rng.range(1, 999) as u32, hdr: spec.header_bytes(), pokes: vec![(sec_prd as usize, buf)] };
+	// the cursor: inside the section, now and then at its last bytes or outside every section
+	let cursor = match rng.below(12) { 0 => sec_va + sec_size as u32 - 1 - rng.below(4) as u32, 1 => sec_va + sec_size as u32 + rng.below(3) as u32, 2 => rng.below(0x1000) as u32, _ => sec_va + lay_off as u32 };
+	format!("exec fmt={} file={} {} soh={} soi={} base={} secs={} text=00 atoms={} cursor={} slots={} expect=any saves=0",
+		if pe64 { 64 } else { 32 }, file as u8, img.encode(), spec.soh, spec.soi, image_base, secs_field(&spec.secs), atoms_text(&atoms), cursor, slots)
+}
+
 fn gen(rng: &mut Rng, _i: u64) -> String {
+	// one case in ten: a raw atom list (kind exec with an explicit atoms= field); decided first so that the other streams keep their proportions
+	if rng.below(10) == 0 { return gen_raw(rng); }
 	match rng.below(10) {
 		0 | 1 => format!("parse text={}", hex(&random_text(rng))),
 		3 => {
@@ -287,7 +379,8 @@ fn gen(rng: &mut Rng, _i: u64) -> String {
 		},
 		2 => {
 			// stress shapes: deep nesting, long skips, many saves, adjacent operators
-			let s: String = match rng.below(8) {
+			let s: String = match rng.below(10) {
+				8 | 9 => unbalanced_text(rng),
 				0 => "${".repeat(rng.range(250, 260) as usize),
 				1 => "'".repeat(rng.range(250, 258) as usize),
 				2 => {
